@@ -104,6 +104,26 @@ func TestCheckerRules(t *testing.T) {
 		{"finaliser sees killed status", insertAfter(goodLog(), "killing", 2, Ev{K: "gc", ID: 6, Status: "killed", Cpu: 900, LuaCpu: 900, Depth: 1}), "gc-in-nonlive-context"},
 		{"lost finaliser at context exit", without(without(goodLog(), "gc", 5), "gcend", 5), "missing-finaliser"},
 		{"finaliser after its context", insertAfter(without(without(goodLog(), "gc", 5), "gcend", 5), "exit", 1, Ev{K: "gc", ID: 5, Status: "live"}), "gc-after-owner-exit"},
+		{"released while the program holds it", insertAfter(without(goodLog(), "release", 4), "mark", 4, Ev{K: "release", ID: 4}), "released-while-reachable"},
+		{"finalised after release", insertAfter(goodLog(), "release", 2, Ev{K: "mark", ID: 2}, Ev{K: "gc", ID: 2, Status: "live"}, Ev{K: "gcend", ID: 2}), "finalise-after-release"},
+		{"isolate not reported", func() []Ev {
+			l := goodLog()
+			for i := range l {
+				if l[i].K == "enter" && l[i].ID == 1 {
+					l[i].Policy = "share"
+				}
+			}
+			return l
+		}(), "policy"},
+		{"lua and go views differ", func() []Ev {
+			l := goodLog()
+			for i := range l {
+				if l[i].K == "gc" && l[i].ID == 5 {
+					l[i].LuaCpu = 7
+				}
+			}
+			return l
+		}(), "context-view-mismatch"},
 		{"release after Close", insertAfter(without(goodLog(), "release", 2), "closed", 0, Ev{K: "release", ID: 2}), "release-after-close"},
 	}
 	for _, c := range cases {
